@@ -553,6 +553,9 @@ class Bits:
             if offset == 0:
                 self._filename = source.name
                 self._bitstore = BitStore.frombuffer(m, length=length)
+                if length is not None:
+                    # Not every operation can work on part of a buffer, so read just the requested bits into memory.
+                    self._bitstore = self._bitstore.getslice_msb0(0, length)
             else:
                 # If offset is given then always read into memory.
                 temp = BitStore.frombuffer(m)
